@@ -10,6 +10,7 @@ ops:
   newuser <id> <startMoney> <slot> <hex of the registration record>
         ptt.SetupNewUser; <slot> is the slot the id was observed to get (0: the registration was refused)
   resetconc <G> <N> <seed>              concurrent stress (judged by the oracle only; the model answers `done`)
+  resetconcrec <G> <N> <seed>           the same with whole-record writers, readers and a registrar
   set <uid> <money> | de <uid> <money> | get <uid>            (int32 decimals)
   syncquery <uid>                       ptt.GetUser -> passwdSyncQuery
   load <uid>                            the same; the caller keeps the returned record as its copy for <uid>
@@ -202,6 +203,12 @@ def stepC20 (d : DState) (ws : List String) : DState × String :=
   match ws with
   | ["layout"] =>
       (st, s!"max={Gen.Money.maxUsers} sz={Gen.Money.recSize} off={Gen.Money.moneyOffset} fsz={Gen.Money.moneySize} lvl={Gen.Money.userLevelOffset} bools={if Gen.Money.boolOffsets.isEmpty then "-" else ",".intercalate (Gen.Money.boolOffsets.map toString)}")
+  | ["resetconcrec", g, n, seed] =>
+      match parseNat g 2, parseNat n 6, parseNat seed 19 with
+      | some g, some n, some _ =>
+          if 1 ≤ g ∧ 2 * g ≤ Gen.Money.maxUsers ∧ 1 ≤ n ∧ n ≤ 100000 then ({ st := none, stale := [], free := [] }, "done")
+          else (st, "bad-op")
+      | _, _, _ => (st, "bad-op")
   | ["resetconc", g, n, seed] =>
       match parseNat g 2, parseNat n 6, parseNat seed 19 with
       | some g, some n, some _ =>
